@@ -4,7 +4,7 @@
    StreamingHandlerFunc) and any wrap : I -> F -> F, so they cover unary and
    streaming wrapping on clients and handlers alike. *)
 From Coq Require Import List.
-From Connect Require Import Interceptors.
+From Connect Require Import Interceptors Recover.
 Import ListNotations.
 
 (* For any forest of option values (any grouping into WithInterceptors, any
@@ -35,3 +35,23 @@ Theorem event_order : forall (I : Type) (ts : list (opt I)),
   = map (Req I) (flat_all I ts) ++ [Core I] ++ map (Res I) (rev (flat_all I ts)).
 Proof. exact event_order_lemma. Qed.
 Print Assumptions event_order.
+
+(* WithRecover is WithInterceptors(the recover interceptor): one more element of
+   the declared list, at its declared place. It recovers the panics of what is
+   declared after it (inside it) — with exactly one call of the recovery function
+   — and of the handler function, and not those of what is declared before it. *)
+Theorem recover_takes_its_declared_place :
+  forall (V R : Type) (handle : pval V -> R) (pre mid post : list (icpt V)) (v : pval V) (core : hout V R),
+  all_pass V pre -> v <> PAbort ->
+  (all_pass V mid ->
+     run_chain V R handle (pre ++ IRecover :: mid ++ IPanic v :: post) core = (Returns (handle v), [v])) /\
+  run_chain V R handle (pre ++ IPanic v :: mid ++ IRecover :: post) core = (Panics v, []) /\
+  (all_pass V post ->
+     run_chain V R handle (pre ++ IRecover :: post) (Panics v) = (Returns (handle v), [v])).
+Proof.
+  intros V R handle pre mid post v core Hp Hv. repeat split.
+  - intro Hm. exact (recover_catches_inner_lemma V R handle pre mid post v core Hp Hm Hv).
+  - exact (recover_misses_outer_lemma V R handle pre _ v core Hp).
+  - intro Hq. exact (recover_catches_core_lemma V R handle pre post v Hp Hq Hv).
+Qed.
+Print Assumptions recover_takes_its_declared_place.
